@@ -531,10 +531,10 @@ func runHG(r *Result, thorough bool, prop string) {
 }
 
 var hgRules = map[string]string{
-	"C01": "G1 gossip DAGs (n=1..7, silent minority, partition+heal, lagging creator, bursts, stale other-parents, joins/leaves) inserted into several real Hashgraph nodes in different topological orders / downward-closed sub-DAGs; observations (accept/reject, delivered blocks after every insertion, round/witness/lamport/round-received/fame tables, peer sets) compared with the Lean model; oracle: pairwise prefix consistency of delivered blocks. non-trivial: >=2 nodes with different orders each delivered >=2 blocks",
-	"C02": "same generator; oracle: consecutive indexes, strictly increasing round received, stored block body = delivered body. non-trivial: >=3 blocks and an empty frame or a late witness",
+	"C01": "a scripted slow election and hashgraphs built by a beam search against the fame election (split votes, coin rounds, counts of exactly the supermajority, a witness that decides early and is delivered late), each on a reference node and on nodes with delayed deliveries; then G1 gossip DAGs (n=1..7, silent minority, partition+heal, lagging creator, bursts, stale other-parents, joins/leaves) inserted into several real Hashgraph nodes in different topological orders / downward-closed sub-DAGs; observations (accept/reject, delivered blocks after every insertion, round/witness/lamport/round-received/fame tables, peer sets) compared with the Lean model; oracle: pairwise prefix consistency of delivered blocks. non-trivial: >=2 nodes with different orders each delivered >=2 blocks",
+	"C02": "same generators, plus a node whose commit callback fails for a few blocks after applying them and a node whose store refuses a few block / frame writes once; oracle: consecutive indexes, strictly increasing round received, stored block body = delivered body. non-trivial: >=3 blocks and an empty frame or a late witness",
 	"C03": "same DAG in several topological orders, sub-DAGs, inmem/Badger stores, cache sizes, batchings of the passes (static sets); oracle: every assigned value agrees across nodes. non-trivial: >=2 nodes, >=1 decided round",
-	"C04": "same generator; oracle: committed order is a linear extension of ancestry, every event once, block payload = concatenation of the events of one round received. non-trivial: a block with >=2 events or a Lamport tie",
+	"C04": "same generators (failing commit callbacks and failing store writes included); oracle: committed order is a linear extension of ancestry, every event once, block payload = concatenation of the events of one round received. non-trivial: a block with >=2 events or a Lamport tie",
 	"C18": "hashgraph runs with lying clocks (fewer than n/3 creators claim extreme timestamps): block timestamp = common.Median of the famous witnesses' claims and lies inside the honest range. non-trivial: a block whose famous witnesses include a liar",
 }
 
